@@ -5,6 +5,7 @@ import (
 	"go/constant"
 	"go/token"
 	"go/types"
+	"regexp"
 	"sort"
 	"strings"
 
@@ -18,13 +19,14 @@ import (
 // ---------------------------------------------------------------------------
 
 type Renderer struct {
-	fn   *ssa.Function
-	memo map[ssa.Value]string
-	busy map[ssa.Value]bool
+	fn    *ssa.Function
+	memo  map[ssa.Value]string
+	busy  map[ssa.Value]bool
+	busy2 map[ssa.Value]bool
 }
 
 func NewRenderer(fn *ssa.Function) *Renderer {
-	return &Renderer{fn: fn, memo: map[ssa.Value]string{}, busy: map[ssa.Value]bool{}}
+	return &Renderer{fn: fn, memo: map[ssa.Value]string{}, busy: map[ssa.Value]bool{}, busy2: map[ssa.Value]bool{}}
 }
 
 func isRangeIndex(v ssa.Value) bool {
@@ -600,6 +602,9 @@ func (R *Renderer) call(x *ssa.Call) string {
 		return b.Name() + "(" + strings.Join(args, ",") + ")"
 	}
 	if f := cc.StaticCallee(); f != nil {
+		if tmpl, ok := pureValue(f); ok && f != R.fn {
+			return substParams(tmpl, args)
+		}
 		return FnName(f) + "(" + strings.Join(args, ",") + ")"
 	}
 	return "dyncall(" + R.V(cc.Value) + ";" + strings.Join(args, ",") + ")"
@@ -608,8 +613,33 @@ func (R *Renderer) call(x *ssa.Call) string {
 // counter recognises "count of loop iterations on which atom A held":
 // a phi whose phi-closure is fed only by one constant and by (closure-member + 1).
 func (R *Renderer) counter(p *ssa.Phi) string {
-	if !isIntType(p.Type()) {
+	conds, ok := R.counterConds(p)
+	if !ok {
 		return ""
+	}
+	if len(conds) == 0 {
+		return "*"
+	}
+	if len(conds) == 1 {
+		return "count{" + conds[0] + "}"
+	}
+	return "(" + R.counterLin(conds).String() + ")"
+}
+
+func (R *Renderer) counterLin(conds []string) Lin {
+	l := Lin{T: map[string]int64{}}
+	for _, c := range conds {
+		l.T["count{"+c+"}"]++
+	}
+	return l
+}
+
+// counterConds: the conditions under which the increments of a counter execute, one per
+// increment instruction (a counter fed by several increments is the sum of the per-increment
+// counts); empty for a plain induction variable.
+func (R *Renderer) counterConds(p *ssa.Phi) ([]string, bool) {
+	if !isIntType(p.Type()) {
+		return nil, false
 	}
 	closure := map[*ssa.Phi]bool{}
 	var adds []*ssa.BinOp
@@ -651,11 +681,11 @@ func (R *Renderer) counter(p *ssa.Phi) string {
 		return true
 	}
 	if !walk(p) || len(adds) == 0 {
-		return ""
+		return nil, false
 	}
 	inits = dedup(sortStrings(inits))
 	if len(inits) != 1 || inits[0] != "0" {
-		return ""
+		return nil, false
 	}
 	var conds []string
 	seen := map[*ssa.BinOp]bool{}
@@ -667,11 +697,10 @@ func (R *Renderer) counter(p *ssa.Phi) string {
 		conds = append(conds, R.controlOf(a.Block()))
 	}
 	sort.Strings(conds)
-	conds = dedup(conds)
-	if len(conds) == 1 && (conds[0] == "always" || conds[0] == "multi-pred") {
-		return "*" // plain loop induction variable 0,1,2,...: same rendering as a range index
+	if u := dedup(append([]string{}, conds...)); len(u) == 1 && (u[0] == "always" || u[0] == "multi-pred") {
+		return nil, true // plain loop induction variable 0,1,2,...: same rendering as a range index
 	}
-	return "count{" + strings.Join(conds, " ; ") + "}"
+	return conds, true
 }
 
 func sortStrings(s []string) []string { sort.Strings(s); return s }
@@ -769,6 +798,19 @@ func (l Lin) String() string {
 
 func (R *Renderer) Lin(v ssa.Value) Lin {
 	switch x := v.(type) {
+	case *ssa.Phi:
+		if !R.busy[x] && !isRangeIndex(x) {
+			R.busy[x] = true
+			conds, ok := R.counterConds(x)
+			delete(R.busy, x)
+			if ok && len(conds) > 1 {
+				return R.counterLin(conds)
+			}
+			if init := descendingInit(x); init != nil {
+				// i := N; ...; i--  visits N, N-1, ...: N minus the iteration number
+				return R.Lin(init).add(Lin{T: map[string]int64{"*": 1}}, -1)
+			}
+		}
 	case *ssa.Const:
 		if x.Value != nil && x.Value.Kind() == constant.Int {
 			if n, ok := constant.Int64Val(x.Value); ok {
@@ -938,5 +980,197 @@ func (R *Renderer) CondAtom(v ssa.Value) Atom {
 			}
 		}
 	}
+	if cl, ok := v.(*ssa.Call); ok {
+		if a, ok := R.pureBoolAtom(cl); ok {
+			return a
+		}
+	}
 	return Atom{Op: "true", B: R.V(v)}
+}
+
+// pureBoolAtom: a call of a same-module pure boolean helper whose single return is one
+// comparison is the atom of that comparison over the call's arguments
+// (`b.acceptsWrites()` with `return b.mode != ERR` is the atom mode != ERR).
+var pureBoolBusy = map[*ssa.Function]bool{}
+
+func (R *Renderer) pureBoolAtom(cl *ssa.Call) (Atom, bool) {
+	h := cl.Call.StaticCallee()
+	if h == nil || h == R.fn || pureBoolBusy[h] || !pureBody(h) {
+		return Atom{}, false
+	}
+	res := h.Signature.Results()
+	if res.Len() != 1 || !isBoolType(res.At(0).Type()) {
+		return Atom{}, false
+	}
+	rets := Returns(h)
+	if len(rets) != 1 {
+		return Atom{}, false
+	}
+	v := strip(rets[0].Results[0])
+	switch v.(type) {
+	case *ssa.BinOp, *ssa.UnOp, *ssa.Call:
+	default:
+		return Atom{}, false
+	}
+	pureBoolBusy[h] = true
+	defer delete(pureBoolBusy, h)
+	HR := NewRenderer(h)
+	a := HR.CondAtom(v)
+	var args []string
+	for _, x := range cl.Call.Args {
+		args = append(args, R.V(x))
+	}
+	out := Atom{Op: a.Op, B: substParams(a.B, args), L: Lin{K: a.L.K, T: map[string]int64{}}}
+	for t, co := range a.L.T {
+		out.L.T[substParams(t, args)] += co
+	}
+	for _, bad := range []string{"var(", "…", "?"} {
+		if strings.Contains(out.String(), bad) {
+			return Atom{}, false
+		}
+	}
+	if out.Op == "==0" || out.Op == "!=0" {
+		out.L = canonEq(out.L)
+	}
+	return out, true
+}
+
+// pureBody: no effects besides the function's own locals (see pureValue).
+func pureBody(h *ssa.Function) bool {
+	if h.Blocks == nil || len(h.Blocks) > 16 || !isJivaFn(h) || len(h.FreeVars) > 0 || h.Signature.Variadic() {
+		return false
+	}
+	for _, b := range h.Blocks {
+		for _, in := range b.Instrs {
+			switch x := in.(type) {
+			case *ssa.Store:
+				if _, ok := x.Addr.(*ssa.Alloc); !ok {
+					return false
+				}
+			case *ssa.Call:
+				if _, ok := x.Call.Value.(*ssa.Builtin); ok {
+					n := x.Call.Value.Name()
+					if n == "len" || n == "cap" {
+						continue
+					}
+					return false
+				}
+				if isLockCall(in) || isUnlockCall(in) {
+					continue
+				}
+				if f := x.Call.StaticCallee(); f != nil && f != h {
+					if _, ok := pureValue(f); ok {
+						continue
+					}
+				}
+				return false
+			case *ssa.Defer:
+				n := CalleeName(in)
+				if n == "(*sync.RWMutex).Unlock" || n == "(*sync.RWMutex).RUnlock" || n == "(*sync.Mutex).Unlock" {
+					continue
+				}
+				return false
+			case *ssa.Go, *ssa.Send, *ssa.MapUpdate, *ssa.Panic, *ssa.Select, *ssa.MakeClosure, *ssa.MakeChan:
+				return false
+			}
+		}
+	}
+	return true
+}
+
+// pureValue: a same-module function that only computes a value from its parameters (field
+// reads, possibly under a lock; counting loops; arithmetic; no stores to anything but its own
+// locals, no calls but builtins, mutex operations and other pure helpers) is rendered as the
+// term it returns, with the call's arguments substituted for its parameters.  A getter or a
+// counting helper extracted from a guard therefore renders exactly like the inlined expression.
+var pureMemo = map[*ssa.Function]*string{}
+
+var countRe = regexp.MustCompile(`count\{[^{}]*\}`)
+
+func pureValue(h *ssa.Function) (string, bool) {
+	if p, ok := pureMemo[h]; ok {
+		if p == nil {
+			return "", false
+		}
+		return *p, true
+	}
+	pureMemo[h] = nil
+	res := h.Signature.Results()
+	if res.Len() != 1 || isBoolType(res.At(0).Type()) || types.Identical(res.At(0).Type(), types.Universe.Lookup("error").Type()) {
+		return "", false
+	}
+	if !pureBody(h) {
+		return "", false
+	}
+	R := NewRenderer(h)
+	var vals []string
+	for _, r := range Returns(h) {
+		if len(r.Results) != 1 {
+			return "", false
+		}
+		vals = append(vals, R.V(strip(r.Results[0])))
+	}
+	sort.Strings(vals)
+	vals = dedup(vals)
+	if len(vals) == 0 {
+		return "", false
+	}
+	out := vals[0]
+	if len(vals) > 1 {
+		out = "phi{" + strings.Join(vals, " | ") + "}"
+	}
+	// a value that depends on a loop position (search loops) or merges alternatives is better
+	// named by its function
+	chk := countRe.ReplaceAllString(strings.ReplaceAll(out, "[*]", "[]"), "count")
+	if strings.Contains(chk, "*") || strings.Contains(out, "phi{") {
+		return "", false
+	}
+	for _, bad := range []string{"var(", "…", "?", "select", "next"} {
+		if strings.Contains(out, bad) {
+			return "", false
+		}
+	}
+	pureMemo[h] = &out
+	return out, true
+}
+
+// callTerm renders "fn(args)" the way the Renderer would for a call on the current tree:
+// as the callee's own value term when the callee is a pure value helper.
+func (P *Prog) callTerm(fn string, args ...string) string {
+	if f := P.Fn(fn); f != nil {
+		if tmpl, ok := pureValue(f); ok {
+			return substParams(tmpl, args)
+		}
+	}
+	return fn + "(" + strings.Join(args, ",") + ")"
+}
+
+// descendingInit: p is a loop variable `for i := init; ...; i--` (one initial value from outside
+// the loop, one back edge p-1 executed on every iteration); returns init.
+func descendingInit(p *ssa.Phi) ssa.Value {
+	if !isIntType(p.Type()) || len(p.Edges) != 2 {
+		return nil
+	}
+	var init ssa.Value
+	var dec *ssa.BinOp
+	for _, e := range p.Edges {
+		if b, ok := e.(*ssa.BinOp); ok && b.Op == token.SUB && b.X == ssa.Value(p) {
+			if c, ok := b.Y.(*ssa.Const); ok && c.Value != nil && c.Value.String() == "1" {
+				dec = b
+				continue
+			}
+		}
+		init = e
+	}
+	if dec == nil || init == nil {
+		return nil
+	}
+	if _, ok := init.(*ssa.Phi); ok {
+		return nil
+	}
+	// the decrement is the loop's post statement: its block's only successor is the loop head
+	if len(dec.Block().Succs) != 1 || dec.Block().Succs[0] != p.Block() {
+		return nil
+	}
+	return init
 }
